@@ -78,7 +78,7 @@ def pair_counter(r1, c1, l1, r2, c2, l2):
 class C14(object):
     id = "C14"
     engine = "simomp"
-    tiers = {"quick": {"runs": 5000, "budget_s": 60, "selftest_every": 50, "fresh_selftest": 8},
+    tiers = {"quick": {"runs": 12000, "budget_s": 60, "selftest_every": 50, "fresh_selftest": 8},
              "thorough": {"runs": 1200000, "budget_s": 800, "selftest_every": 300, "fresh_selftest": 16}}
     rule = ("one run = a short history (roundtrip | sort | a sequence of 2..5 overlap calls on reused cache objects) on "
             "the instrumented module with garbage-filled np.empty buffers, team 1..16 and a seeded interleaving of the "
